@@ -569,14 +569,14 @@ def gql_description(d, text):
     return gql_string(text)
 
 
-def render_sdl_rich(d, desc, *, deprecations=True, directives=True, descriptions=True, extend=True):
+def render_sdl_rich(d, desc, *, deprecations=True, directives=True, descriptions=True, extend=True, empty_descriptions_ok=False):
     """SDL with descriptions, deprecations, custom directives, specifiedBy, schema description, extend type."""
     out = []
 
     def descr(indent=""):
         if descriptions and d.bool(0.3):
             text = d.choice(DESCRIPTIONS)
-            if text == "" and not d.enabled("sdl.empty_description"):
+            if text == "" and not empty_descriptions_ok and not d.enabled("sdl.empty_description"):
                 text = "plain description"
             d.tag("sdl.description")
             if "\n" in text:
